@@ -3,7 +3,8 @@ with `ast` (no logic beyond parsing and printing):
 
 * the statement skeleton of every method on the execution path of `SmootherBase.smooth` (optimize/smoother.py,
   junction.py, cell.py, grid.py): one string per statement, `depth:text`, docstrings dropped, local names
-  renamed to a0, a1, … in order of first binding (so that renaming a local does not count as a change, while
+  renamed to a0, a1, … in order of first binding, `if c: continue` + rest and its positive-block form, `if c: return x` +
+  `return y` and `return x if c else y` brought to one shape (so that such rewrites do not count as a change, while
   a changed guard, loop bound, operator, statement order, in-place write or default argument does);
 * the literal index tables `side_indexes` / `edge_pairs` of the cell classes as written in the class bodies;
 * default arguments and constants (`smooth(iterations=…)`, `TOL`).
@@ -73,6 +74,61 @@ def _is_report(stmt) -> bool:
     return name == "print" or name.startswith(("logging.", "logger.", "log.")) or name == "warnings.warn"
 
 
+_NEG = {ast.In: ast.NotIn, ast.NotIn: ast.In, ast.Eq: ast.NotEq, ast.NotEq: ast.Eq, ast.Is: ast.IsNot, ast.IsNot: ast.Is,
+        ast.Lt: ast.GtE, ast.GtE: ast.Lt, ast.Gt: ast.LtE, ast.LtE: ast.Gt}
+
+
+def _negate(test):
+    """logical negation in canonical form: `not (a in b)` is `a not in b`, a double negation disappears"""
+    if isinstance(test, ast.UnaryOp) and isinstance(test.op, ast.Not):
+        return _simplify(test.operand)
+    if isinstance(test, ast.Compare) and len(test.ops) == 1 and type(test.ops[0]) in _NEG and not isinstance(
+            test.ops[0], (ast.Lt, ast.GtE, ast.Gt, ast.LtE)):
+        # (order comparisons are not negated: `not a < b` differs from `a >= b` for NaN)
+        return ast.Compare(left=test.left, ops=[_NEG[type(test.ops[0])]()], comparators=test.comparators)
+    return ast.UnaryOp(op=ast.Not(), operand=test)
+
+
+def _simplify(test):
+    if isinstance(test, ast.UnaryOp) and isinstance(test.op, ast.Not):
+        inner = test.operand
+        if isinstance(inner, ast.UnaryOp) and isinstance(inner.op, ast.Not):
+            return _simplify(inner.operand)
+        neg = _negate(inner)
+        if not (isinstance(neg, ast.UnaryOp) and isinstance(neg.op, ast.Not)):
+            return neg
+    return test
+
+
+def _canon(body):
+    """trivially equivalent statement forms get one shape:
+    `if c: continue` + rest of the loop body   ==  `if not c:` rest
+    `if c: return x` + `return y` (last two)     ==  `return x if c else y`"""
+    body = [s for s in body if not (_is_doc(s) or _is_report(s))]
+    out = []
+    i = 0
+    while i < len(body):
+        stmt = body[i]
+        rest = body[i + 1:]
+        if isinstance(stmt, ast.If) and not stmt.orelse:
+            stmt.test = _simplify(stmt.test)
+            if len(stmt.body) == 1 and isinstance(stmt.body[0], ast.Continue) and rest:
+                out.append(ast.If(test=_negate(stmt.test), body=_canon(rest), orelse=[]))
+                return out
+            if (len(stmt.body) == 1 and isinstance(stmt.body[0], ast.Return) and len(rest) == 1
+                    and isinstance(rest[0], ast.Return) and stmt.body[0].value is not None and rest[0].value is not None):
+                out.append(ast.Return(value=ast.IfExp(test=stmt.test, body=stmt.body[0].value, orelse=rest[0].value)))
+                return out
+        for field in ("body", "orelse", "finalbody"):
+            if isinstance(getattr(stmt, field, None), list) and getattr(stmt, field) and isinstance(getattr(stmt, field)[0], ast.stmt):
+                setattr(stmt, field, _canon(getattr(stmt, field)))
+        for h in getattr(stmt, "handlers", []):
+            h.body = _canon(h.body)
+        out.append(stmt)
+        i += 1
+    return out
+
+
 def _flatten(body, depth, out):
     for stmt in body:
         if _is_doc(stmt) or _is_report(stmt):
@@ -125,7 +181,7 @@ def skeleton(obj) -> List[str]:
     fn.args.kw_defaults = [None] * len(fn.args.kwonlyargs)
     args = ast.unparse(fn.args)
     out = [f"def {fn.name}({args})"]
-    _flatten(fn.body, 0, out)
+    _flatten(_canon(fn.body), 0, out)
     return out
 
 
